@@ -314,11 +314,98 @@ impl C14 {
     }
 }
 
+impl C14 {
+    /// Many pipes in one machine: descriptor numbers are random 16-bit draws, so only a machine with thousands of
+    /// open pipes ever sees two draws collide. Every pipe gets its own tag; at the end every pipe must return
+    /// exactly its own tag. A creation the handler refuses because of a collision is a by-design rejection.
+    fn many_pipes(&self, k: u64, rng: &mut Rng, col: &mut Collector) {
+        let mut code = vec![0x0f, 0x05];
+        code.extend_from_slice(&[0x90; 14]);
+        let Call::Ok(mut ax) = call(|| Axecutor::new(&code, CODE_AT, CODE_AT)) else { return };
+        let setup = call(|| {
+            ax.mem_init_area(BUF_AT, vec![SENT; BUF_LEN as usize])?;
+            ax.handle_syscalls(vec![Syscall::Pipe])
+        });
+        if !setup.is_ok() {
+            return;
+        }
+        let fail = |col: &mut Collector, rule: &str, detail: String| {
+            col.violation_case(&format!("pipe:{}", rule), k, detail.clone(), json!({"stratum": "many pipes in one machine", "problem": detail}));
+        };
+        let n = rng.range(1500, 3000);
+        let mut ends: std::collections::HashMap<u64, usize> = std::collections::HashMap::new();
+        let mut pipes: Vec<(u64, u64, u64)> = Vec::new(); // (rd, wr, tag)
+        let ptr = BUF_AT;
+        col.publish("pipe", "many pipes");
+        for i in 0..n {
+            let _ = call(|| ax.mem_write_bytes(ptr, &[SENT; 16]));
+            let r = sys(&mut ax, 22, ptr, 0, 0);
+            col.eval(1);
+            match r {
+                Call::Ok(0) => {
+                    let Call::Ok(b) = call(|| ax.mem_read_bytes(ptr, 16)) else { return fail(col, "result-buffer-unreadable", "".into()) };
+                    let (rd, wr) = if b[8..16].iter().all(|x| *x == SENT) {
+                        (u32::from_le_bytes(b[0..4].try_into().unwrap()) as u64, u32::from_le_bytes(b[4..8].try_into().unwrap()) as u64)
+                    } else {
+                        (u64::from_le_bytes(b[0..8].try_into().unwrap()), u64::from_le_bytes(b[8..16].try_into().unwrap()))
+                    };
+                    if rd == wr {
+                        col.count("pipe_ends_share_one_number", 1);
+                        return;
+                    }
+                    if ends.contains_key(&rd) || ends.contains_key(&wr) {
+                        return fail(col, "descriptor-reused", format!("pipe() #{} returned ({}, {}) which clashes with an end of open pipe #{}", i, rd, wr, ends.get(&rd).or(ends.get(&wr)).unwrap()));
+                    }
+                    let tag = mix64(k ^ (i << 20)) | 1;
+                    // write the tag at once so that a later clash would mix or discard it
+                    let _ = call(|| ax.mem_write_bytes(BUF_AT + 0x100, &tag.to_le_bytes()));
+                    match sys(&mut ax, 1, wr, BUF_AT + 0x100, 8) {
+                        Call::Ok(8) => {}
+                        other => return fail(col, "write-failed", format!("write(8 bytes) to pipe #{} -> {}", i, match &other { Call::Ok(v) => format!("Ok({:#x})", v), o => o.describe() })),
+                    }
+                    col.eval(1);
+                    ends.insert(rd, pipes.len());
+                    ends.insert(wr, pipes.len());
+                    pipes.push((rd, wr, tag));
+                }
+                Call::Err { msg, .. } if msg.contains("Duplicate") => col.count("pipe_descriptor_collision_rejected", 1),
+                other => {
+                    let rule = if other.is_panic() { format!("panic:{}", other.panic_key()) } else { "pipe-call-failed".into() };
+                    return fail(col, &rule, format!("pipe() #{} -> {}", i, match &other { Call::Ok(v) => format!("Ok(rax={:#x})", v), o => o.describe() }));
+                }
+            }
+        }
+        // every pipe returns exactly its own 8 bytes, then nothing
+        for (i, (rd, _wr, tag)) in pipes.iter().enumerate() {
+            let _ = call(|| ax.mem_write_bytes(BUF_AT + 0x200, &[SENT; 32]));
+            let r = sys(&mut ax, 0, *rd, BUF_AT + 0x200, 32);
+            col.eval(1);
+            match r {
+                Call::Ok(8) => {
+                    let got = call(|| ax.mem_read_64(BUF_AT + 0x200));
+                    match got {
+                        Call::Ok(v) if v == *tag => {}
+                        other => return fail(col, "distinct-pipes-share-data", format!("pipe #{} of {} returned {} instead of its own bytes {:#x}", i, pipes.len(), match &other { Call::Ok(v) => format!("{:#x}", v), o => o.describe() }, tag)),
+                    }
+                }
+                other => return fail(col, "read-returned-other-count", format!("pipe #{} of {}: 8 bytes were written, read(32) -> {}", i, pipes.len(), match &other { Call::Ok(v) => format!("Ok({:#x})", v), o => o.describe() })),
+            }
+        }
+        col.distinct_key("many-pipes");
+        col.count("many_pipes_histories", 1);
+        col.count("many_pipes_pipes_created", pipes.len() as u64);
+    }
+}
+
 impl Monitor for C14 {
     fn total_cases(&self) -> u64 {
         self.tier.pick(40_000, 1_000_000)
     }
     fn run_case(&mut self, k: u64, rng: &mut Rng, col: &mut Collector) {
-        self.history(k, rng, col);
+        if k % 400 == 7 {
+            self.many_pipes(k, rng, col);
+        } else {
+            self.history(k, rng, col);
+        }
     }
 }
